@@ -29,7 +29,14 @@ TITLES = {
     'C10/2': ('dictionary array reused in place keeps stale NULL slots', 'three dictionary pages of sizes A >= C > B read by one column reader'),
     'C17/1': ('UTF-8 validated per read instead of per field', 'a multi-byte character straddling a read-buffer boundary'),
     'C17/2': ('type-inference sample treated as the whole file', 'byte 4096 of the file falls inside a bool/int/float field'),
-    'C02/1': ('', ''), 'C02/2': ('', ''), 'C11/1': ('', ''), 'C11/2': ('', ''), 'C19/1': ('', ''), 'C19/2': ('', ''), 'C20/1': ('', ''), 'C20/2': ('', ''),
+    'C02/1': ('JoinFilterOrRewrite derives a per-table predicate although one OR branch does not mention the table', 'an OR filter over a join whose last branch references a table some other branch does not, and a row satisfying that other branch'),
+    'C02/2': ('filter on a group column pushed below a ROLLUP / CUBE aggregate (all/any quantifiers swapped)', 'GROUP BY ROLLUP/CUBE and a HAVING / outer WHERE on a column missing from some grouping set'),
+    'C11/1': ('pushed-down scan filter carries the projection-relative instead of the file column index', 'a non-prefix projection where the relative index lands on another projected column whose statistics exclude the constant'),
+    'C11/2': ('row-group pruner compares in the signed physical domain', 'a UINT_32 / UINT_64 column whose row group straddles the sign bit'),
+    'C19/1': ('bit_unpack checks the remaining bytes once per value instead of once per byte', 'a truncated bit-packed run of width 3, 5, 6, 7 or > 8 cut inside a value'),
+    'C19/2': ('CSV column-count check done once per batch on the total field count', 'ragged rows whose surplus and deficit cancel within one batch'),
+    'C20/1': ('LIKE prefix classifier compares a byte index with a character count', 'a pattern with a multi-byte character before a trailing %'),
+    'C20/2': ('rpad trims the overshoot by bytes instead of characters', 'a multi-byte character among the characters to drop'),
 }
 # how the machinery fared before / after strengthening (filled by hand from the session log)
 HISTORY = json.load(open('/verif/seeded/history.json')) if os.path.exists('/verif/seeded/history.json') else {}
